@@ -20,8 +20,8 @@ RULE = ("(a) form: allocate_code(n), n=0..8, called at once / after the welcome 
         "the three code calls. Non-trivial/distinct = distinct (sub-workload, input) tuples.")
 ASSUMPTIONS = ["os.urandom itself is uniform (quality of the OS generator is out of scope)",
                "unicode decimal digits count as numeric (client and server both use \\d); only U+0020 is a space"]
-FLOORS = {"quick": {"entropy_draws_checked": 9000, "form_codes": 60, "rejections": 600, "completions_checked": 3000, "code_call_sequences": 100, "out_of_order_helper_calls": 40, "codes_entered_by_completion": 100, "typed_words_rejections": 60, "nameplate_edits_after_commit": 10},
-          "thorough": {"entropy_draws_checked": 9000, "form_codes": 1500, "rejections": 60000, "completions_checked": 100000, "code_call_sequences": 3000, "out_of_order_helper_calls": 1500, "codes_entered_by_completion": 3000, "typed_words_rejections": 2000, "nameplate_edits_after_commit": 300}}
+FLOORS = {"quick": {"nameplate_prefixes_ending_in_a_hyphen": 12, "entropy_draws_checked": 9000, "form_codes": 60, "rejections": 600, "completions_checked": 3000, "code_call_sequences": 100, "out_of_order_helper_calls": 40, "codes_entered_by_completion": 100, "typed_words_rejections": 60, "nameplate_edits_after_commit": 10},
+          "thorough": {"nameplate_prefixes_ending_in_a_hyphen": 200, "entropy_draws_checked": 9000, "form_codes": 1500, "rejections": 60000, "completions_checked": 100000, "code_call_sequences": 3000, "out_of_order_helper_calls": 1500, "codes_entered_by_completion": 3000, "typed_words_rejections": 2000, "nameplate_edits_after_commit": 300}}
 NAMEPLATES = ["1", "7", "42", "999", "1000", "123456789", "007", "0", "00", "٣", "４２"]
 
 
